@@ -28,7 +28,7 @@ CARDWORDS = ['M', 'MC', 'm', 'mc', 'Mc']
 
 STR_PIECES = ["'", "''", "'''", "--", "-- x", "\n", "\n\n", "\x00", "é", "日本", "\U0001F600", "\\", '"',
               "a", "b c", " ", "\t", ");", "INSERT INTO", ",", "%s", "%d", "(", "-", "'--'", "\n--\n'", "ß", "0", "1.5",
-              "\"x\"", "\\'", "''\n''", "\x7f", "ı", " "]
+              "\"x\"", "\\'", "''\n''", "\x7f", "ı", " ", "\r", "\r\n", "a\rb", "\r'"]
 INT_VALUES = [0, 1, -1, 7, -42, 2 ** 31 - 1, 2 ** 31, -2 ** 31, 2 ** 63 - 1, 2 ** 63, -2 ** 63, -2 ** 63 - 1, 2 ** 64, 2 ** 64 + 1,
               10 ** 30, -10 ** 40, 2 ** 128, 10 ** 100 + 1]
 ID_VALUES = [0, 1, 2, 255, 2 ** 32, 2 ** 64 - 1, 2 ** 64, 2 ** 127, 2 ** 128 - 1, 0x0123456789abcdef0123456789abcdef]
@@ -90,10 +90,15 @@ def gen_type(rng, core=None):
 
 
 def gen_phrase(rng):
-    if rng.random() < 0.5:
+    """a non-empty association phrase: any text the STRING token can carry (quotes, doubled quotes, comment markers,
+    newlines, carriage returns, NUL, non-ASCII, punctuation of the dialect)"""
+    r = rng.random()
+    if r < 0.4:
         return rng.choice(['precedes', 'succeeds', 'is parent of', 'is child of', 'owns', 'x', 'one', 'other'])
-    pieces = ['is', ' ', 'a', '--', '\n', ',', ')', '(', ';', 'M', '1C', '%s', 'é', '"', '-', 'R1', '0']
-    return ''.join(rng.choice(pieces) for _ in range(rng.randint(1, 5)))
+    if r < 0.7:
+        pieces = ['is', ' ', 'a', '--', '\n', ',', ')', '(', ';', 'M', '1C', '%s', 'é', '"', '-', 'R1', '0', "'", "''", "owner's"]
+        return ''.join(rng.choice(pieces) for _ in range(rng.randint(1, 5)))
+    return ''.join(rng.choice(STR_PIECES) for _ in range(rng.randint(1, 4))) or "'"
 
 
 def gen_value(rng, core, hazard=0.7):
